@@ -351,7 +351,8 @@ def _log_typed(MT, logger, good):
 
 
 OUTCOMES = ["pass", "fail", "error", "skip", "assertion-callback-fails", "invalid-message",
-            "pass-after-reswapping-logger", "error-after-reswapping-logger"]
+            "pass-after-reswapping-logger", "error-after-reswapping-logger",
+            "invalid-message-in-cleanup", "unflushed-traceback-in-cleanup"]
 TYPED = MessageType("c14:t", [Field.for_types("n", [int], "")], "")
 
 
@@ -386,6 +387,22 @@ def run_test(outcome, prev_kind, arrangement, deco):
                 swap_logger(MemoryLogger())
                 if o.startswith("error"):
                     raise RuntimeError("test error")
+            if o == "invalid-message-in-cleanup":
+                # a clean-up registered by the test itself is part of the test: what it logs is captured too
+                if deco == "capture":
+                    test.addCleanup(lambda: TYPED.log(n="not int"))
+                else:
+                    test.addCleanup(lambda: logger.write({"message_type": "c14:t", "n": "not int", "task_uuid": "u", "task_level": [1], "timestamp": 1.0}, TYPED._serializer))
+            if o == "unflushed-traceback-in-cleanup":
+                def failing_cleanup():
+                    try:
+                        raise AppError("in cleanup")
+                    except AppError:
+                        if deco == "capture":
+                            write_traceback()
+                        else:
+                            write_traceback(logger)
+                test.addCleanup(failing_cleanup)
             if o == "fail":
                 test.fail("expected failure")
             if o == "error":
@@ -450,6 +467,8 @@ def run_test(outcome, prev_kind, arrangement, deco):
         "invalid-message": (0, n, 0),
         "pass-after-reswapping-logger": (0, 0, 0),
         "error-after-reswapping-logger": (0, n if deco == "capture" else 0, 0),
+        "invalid-message-in-cleanup": (0, n, 0),
+        "unflushed-traceback-in-cleanup": (0, n, 0),
     }[o]
     got = (counts["failures"], counts["errors"], counts["skipped"])
     if arrangement == "nested":
